@@ -19,6 +19,9 @@ unsafe fn nk128(key: &[u8; 16]) -> [__m128i; 11] { let mut r = [x86_models::from
 unsafe fn nk192(key: &[u8; 24]) -> [__m128i; 13] { let mut r = [x86_models::from_b([0; 16]); 13]; let mut a = [0u8; 16]; a.copy_from_slice(&key[..16]); let mut b = [0u8; 16]; b[..8].copy_from_slice(&key[16..]); r[0] = x86_models::from_b(a); r[1] = x86_models::from_b(b); let mut i = 2; while i < 13 { let mut c = a; c[0] ^= i as u8; r[i] = x86_models::from_b(c); i += 1; } r }
 unsafe fn nk256(key: &[u8; 32]) -> [__m128i; 15] { let mut r = [x86_models::from_b([0; 16]); 15]; let mut a = [0u8; 16]; a.copy_from_slice(&key[..16]); let mut b = [0u8; 16]; b.copy_from_slice(&key[16..]); r[0] = x86_models::from_b(a); r[1] = x86_models::from_b(b); let mut i = 2; while i < 15 { let mut c = a; c[0] ^= i as u8; r[i] = x86_models::from_b(c); i += 1; } r }
 
+/// injective stand-in for AESIMC in the plumbing obligations (its semantics: ni.rs c_ni_inv_keys_*)
+unsafe fn imc_standin(a: __m128i) -> __m128i { let mut b = x86_models::to_b(a); let mut i = 0; while i < 16 { b[i] = b[i].rotate_left(3) ^ 0xa5; i += 1; } x86_models::from_b(b) }
+
 unsafe fn bytes_eq<T>(a: *const T, b: *const T) -> bool {
     let n = core::mem::size_of::<T>();
     let (p, q) = (a as *const u8, b as *const u8);
@@ -41,12 +44,12 @@ unsafe fn first_bytes_zero(p: *const u8, n: usize) -> bool {
 }
 
 macro_rules! auto_family {
-    ($conv:ident, $zero:ident, $names:ident, $weak:ident, $name:ident, $enc:ident, $dec:ident, $kl:expr, $sn:expr, $sne:expr, $snd:expr) => {
+    ($conv:ident, $convf:ident, $convc:ident, $zero:ident, $names:ident, $weak:ident, $name:ident, $enc:ident, $dec:ident, $kl:expr, $sn:expr, $sne:expr, $snd:expr) => {
         #[kani::proof]
         #[kani::stub(core::arch::x86_64::__cpuid, x86_models::cpuid)]
         #[kani::stub(core::arch::x86_64::__cpuid_count, x86_models::cpuid_count)]
         #[kani::stub(core::arch::x86_64::_xgetbv, x86_models::xgetbv)]
-        #[kani::stub(core::arch::x86_64::_mm_aesimc_si128, x86_models::aesimc)]
+        #[kani::stub(core::arch::x86_64::_mm_aesimc_si128, imc_standin)]
         #[kani::stub(crate::soft::fixslice::aes128_key_schedule, ks128)]
         #[kani::stub(crate::soft::fixslice::aes192_key_schedule, ks192)]
         #[kani::stub(crate::soft::fixslice::aes256_key_schedule, ks256)]
@@ -65,34 +68,15 @@ macro_rules! auto_family {
             let dec = $dec::new(&key);
             // the detection result is stable: every instance carries the same answer
             assert!(full.token.get() == hw && dec.token.get() == hw);
-            let f2 = $name::from(&enc);
-            let d2 = $dec::from(&enc);
-            let (fc, ec, dc) = (full.clone(), enc.clone(), d2.clone());
             unsafe {
                 if hw {
-                    let rf = intrinsics::$name::new(&key);
-                    let re = intrinsics::$enc::new(&key);
-                    let rd = intrinsics::$dec::new(&key);
-                    assert!(bytes_eq(&*full.inner.intrinsics, &rf) && bytes_eq(&*f2.inner.intrinsics, &rf) && bytes_eq(&*fc.inner.intrinsics, &rf));
-                    assert!(bytes_eq(&*enc.inner.intrinsics, &re) && bytes_eq(&*ec.inner.intrinsics, &re));
-                    assert!(bytes_eq(&*dec.inner.intrinsics, &rd) && bytes_eq(&*d2.inner.intrinsics, &rd) && bytes_eq(&*dc.inner.intrinsics, &rd));
+                    assert!(bytes_eq(&*full.inner.intrinsics, &intrinsics::$name::new(&key)));
+                    assert!(bytes_eq(&*enc.inner.intrinsics, &intrinsics::$enc::new(&key)));
+                    assert!(bytes_eq(&*dec.inner.intrinsics, &intrinsics::$dec::new(&key)));
                 } else {
-                    let rf = soft::$name::new(&key);
-                    let re = soft::$enc::new(&key);
-                    let rd = soft::$dec::new(&key);
-                    assert!(bytes_eq(&*full.inner.soft, &rf) && bytes_eq(&*f2.inner.soft, &rf) && bytes_eq(&*fc.inner.soft, &rf));
-                    assert!(bytes_eq(&*enc.inner.soft, &re) && bytes_eq(&*ec.inner.soft, &re));
-                    assert!(bytes_eq(&*dec.inner.soft, &rd) && bytes_eq(&*d2.inner.soft, &rd) && bytes_eq(&*dc.inner.soft, &rd));
-                }
-            }
-            // by-value conversions
-            let f3 = $name::from($enc::new(&key));
-            let d3 = $dec::from($enc::new(&key));
-            unsafe {
-                if hw {
-                    assert!(bytes_eq(&*f3.inner.intrinsics, &*full.inner.intrinsics) && bytes_eq(&*d3.inner.intrinsics, &*dec.inner.intrinsics));
-                } else {
-                    assert!(bytes_eq(&*f3.inner.soft, &*full.inner.soft) && bytes_eq(&*d3.inner.soft, &*dec.inner.soft));
+                    assert!(bytes_eq(&*full.inner.soft, &soft::$name::new(&key)));
+                    assert!(bytes_eq(&*enc.inner.soft, &soft::$enc::new(&key)));
+                    assert!(bytes_eq(&*dec.inner.soft, &soft::$dec::new(&key)));
                 }
             }
         }
@@ -100,7 +84,80 @@ macro_rules! auto_family {
         #[kani::stub(core::arch::x86_64::__cpuid, x86_models::cpuid)]
         #[kani::stub(core::arch::x86_64::__cpuid_count, x86_models::cpuid_count)]
         #[kani::stub(core::arch::x86_64::_xgetbv, x86_models::xgetbv)]
-        #[kani::stub(core::arch::x86_64::_mm_aesimc_si128, x86_models::aesimc)]
+        #[kani::stub(core::arch::x86_64::_mm_aesimc_si128, imc_standin)]
+        #[kani::stub(crate::soft::fixslice::aes128_key_schedule, ks128)]
+        #[kani::stub(crate::soft::fixslice::aes192_key_schedule, ks192)]
+        #[kani::stub(crate::soft::fixslice::aes256_key_schedule, ks256)]
+        #[kani::stub(crate::ni::expand::aes128_expand_key, nk128)]
+        #[kani::stub(crate::ni::expand::aes192_expand_key, nk192)]
+        #[kani::stub(crate::ni::expand::aes256_expand_key, nk256)]
+        #[kani::unwind(800)]
+        fn $convf() {
+            let k: [u8; $kl] = kani::any();
+            let key = Array(k);
+            let enc = $enc::new(&key);
+            let hw = enc.token.get();
+            kani::cover!(hw);
+            kani::cover!(!hw);
+            let f2 = $name::from(&enc);
+            let d2 = $dec::from(&enc);
+            assert!(f2.token.get() == hw && d2.token.get() == hw);
+            unsafe {
+                if hw {
+                    assert!(bytes_eq(&*f2.inner.intrinsics, &intrinsics::$name::new(&key)));
+                    assert!(bytes_eq(&*d2.inner.intrinsics, &intrinsics::$dec::new(&key)));
+                } else {
+                    assert!(bytes_eq(&*f2.inner.soft, &soft::$name::new(&key)));
+                    assert!(bytes_eq(&*d2.inner.soft, &soft::$dec::new(&key)));
+                }
+            }
+            // by value
+            let f3 = $name::from($enc::new(&key));
+            let d3 = $dec::from($enc::new(&key));
+            unsafe {
+                if hw {
+                    assert!(bytes_eq(&*f3.inner.intrinsics, &*f2.inner.intrinsics) && bytes_eq(&*d3.inner.intrinsics, &*d2.inner.intrinsics));
+                } else {
+                    assert!(bytes_eq(&*f3.inner.soft, &*f2.inner.soft) && bytes_eq(&*d3.inner.soft, &*d2.inner.soft));
+                }
+            }
+        }
+        #[kani::proof]
+        #[kani::stub(core::arch::x86_64::__cpuid, x86_models::cpuid)]
+        #[kani::stub(core::arch::x86_64::__cpuid_count, x86_models::cpuid_count)]
+        #[kani::stub(core::arch::x86_64::_xgetbv, x86_models::xgetbv)]
+        #[kani::stub(core::arch::x86_64::_mm_aesimc_si128, imc_standin)]
+        #[kani::stub(crate::soft::fixslice::aes128_key_schedule, ks128)]
+        #[kani::stub(crate::soft::fixslice::aes192_key_schedule, ks192)]
+        #[kani::stub(crate::soft::fixslice::aes256_key_schedule, ks256)]
+        #[kani::stub(crate::ni::expand::aes128_expand_key, nk128)]
+        #[kani::stub(crate::ni::expand::aes192_expand_key, nk192)]
+        #[kani::stub(crate::ni::expand::aes256_expand_key, nk256)]
+        #[kani::unwind(800)]
+        fn $convc() {
+            let k: [u8; $kl] = kani::any();
+            let key = Array(k);
+            let enc = $enc::new(&key);
+            let hw = enc.token.get();
+            kani::cover!(hw);
+            kani::cover!(!hw);
+            let full = $name::new(&key);
+            let dec = $dec::from(&enc);
+            let (fc, ec, dc) = (full.clone(), enc.clone(), dec.clone());
+            assert!(fc.token.get() == hw && ec.token.get() == hw && dc.token.get() == hw);
+            unsafe {
+                if hw {
+                    assert!(bytes_eq(&*fc.inner.intrinsics, &*full.inner.intrinsics) && bytes_eq(&*ec.inner.intrinsics, &*enc.inner.intrinsics) && bytes_eq(&*dc.inner.intrinsics, &*dec.inner.intrinsics));
+                } else {
+                    assert!(bytes_eq(&*fc.inner.soft, &*full.inner.soft) && bytes_eq(&*ec.inner.soft, &*enc.inner.soft) && bytes_eq(&*dc.inner.soft, &*dec.inner.soft));
+                }
+            }
+        }
+        #[kani::proof]
+        #[kani::stub(core::arch::x86_64::__cpuid, x86_models::cpuid)]
+        #[kani::stub(core::arch::x86_64::__cpuid_count, x86_models::cpuid_count)]
+        #[kani::stub(core::arch::x86_64::_xgetbv, x86_models::xgetbv)]
+        #[kani::stub(core::arch::x86_64::_mm_aesimc_si128, imc_standin)]
         #[kani::stub(crate::soft::fixslice::aes128_key_schedule, ks128)]
         #[kani::stub(crate::soft::fixslice::aes192_key_schedule, ks192)]
         #[kani::stub(crate::soft::fixslice::aes256_key_schedule, ks256)]
@@ -136,7 +193,7 @@ macro_rules! auto_family {
         #[kani::stub(core::arch::x86_64::__cpuid, x86_models::cpuid)]
         #[kani::stub(core::arch::x86_64::__cpuid_count, x86_models::cpuid_count)]
         #[kani::stub(core::arch::x86_64::_xgetbv, x86_models::xgetbv)]
-        #[kani::stub(core::arch::x86_64::_mm_aesimc_si128, x86_models::aesimc)]
+        #[kani::stub(core::arch::x86_64::_mm_aesimc_si128, imc_standin)]
         #[kani::stub(crate::soft::fixslice::aes128_key_schedule, ks128)]
         #[kani::stub(crate::soft::fixslice::aes192_key_schedule, ks192)]
         #[kani::stub(crate::soft::fixslice::aes256_key_schedule, ks256)]
@@ -173,17 +230,23 @@ macro_rules! auto_family {
     };
 }
 // @ob name=a128_conv props=C12,C15 fn=aes::Aes128::new,aes::Aes128Enc::new,aes::Aes128Dec::new,aes::Aes128::from,aes::Aes128Dec::from,aes::Aes128::clone,aes::Aes128Enc::clone,aes::Aes128Dec::clone uses=c_ni_expand_128,ks_aes128,c_ni_inv_keys_11 timeout=1800
+// @ob name=a128_convf props=C12,C15 fn=aes::Aes128::new,aes::Aes128Enc::new,aes::Aes128Dec::new,aes::Aes128::from,aes::Aes128Dec::from,aes::Aes128::clone,aes::Aes128Enc::clone,aes::Aes128Dec::clone uses=c_ni_expand_128,ks_aes128,c_ni_inv_keys_11 timeout=1800
+// @ob name=a128_convc props=C12,C15 fn=aes::Aes128::new,aes::Aes128Enc::new,aes::Aes128Dec::new,aes::Aes128::from,aes::Aes128Dec::from,aes::Aes128::clone,aes::Aes128Enc::clone,aes::Aes128Dec::clone uses=c_ni_expand_128,ks_aes128,c_ni_inv_keys_11 timeout=1800
 // @ob name=a128_zero props=C16 cfg=zeroize fn=aes::Aes128::drop,aes::Aes128Enc::drop,aes::Aes128Dec::drop uses=c_ni_expand_128,ks_aes128 timeout=1800
 // @ob name=a128_names props=C19 fn=aes::Aes128::fmt,aes::Aes128Enc::fmt,aes::Aes128Dec::fmt uses=c_ni_expand_128,ks_aes128 timeout=900
 // @ob name=a128_weak props=C13 fn=aes::Aes128::weak_key_test,aes::Aes128Enc::weak_key_test,aes::Aes128Dec::weak_key_test timeout=300
-auto_family!(a128_conv, a128_zero, a128_names, a128_weak, Aes128, Aes128Enc, Aes128Dec, 16, "Aes128", "Aes128Enc", "Aes128Dec");
+auto_family!(a128_conv, a128_convf, a128_convc, a128_zero, a128_names, a128_weak, Aes128, Aes128Enc, Aes128Dec, 16, "Aes128", "Aes128Enc", "Aes128Dec");
 // @ob name=a192_conv props=C12,C15 fn=aes::Aes192::new,aes::Aes192Enc::new,aes::Aes192Dec::new,aes::Aes192::from,aes::Aes192Dec::from,aes::Aes192::clone uses=c_ni_expand_192,ks_aes192,c_ni_inv_keys_13 timeout=1800
+// @ob name=a192_convf props=C12,C15 fn=aes::Aes192::new,aes::Aes192Enc::new,aes::Aes192Dec::new,aes::Aes192::from,aes::Aes192Dec::from,aes::Aes192::clone uses=c_ni_expand_192,ks_aes192,c_ni_inv_keys_13 timeout=1800
+// @ob name=a192_convc props=C12,C15 fn=aes::Aes192::new,aes::Aes192Enc::new,aes::Aes192Dec::new,aes::Aes192::from,aes::Aes192Dec::from,aes::Aes192::clone uses=c_ni_expand_192,ks_aes192,c_ni_inv_keys_13 timeout=1800
 // @ob name=a192_zero props=C16 cfg=zeroize fn=aes::Aes192::drop,aes::Aes192Enc::drop,aes::Aes192Dec::drop uses=c_ni_expand_192,ks_aes192 timeout=1800
 // @ob name=a192_names props=C19 fn=aes::Aes192::fmt,aes::Aes192Enc::fmt,aes::Aes192Dec::fmt uses=c_ni_expand_192,ks_aes192 timeout=900
 // @ob name=a192_weak props=C13 fn=aes::Aes192::weak_key_test,aes::Aes192Enc::weak_key_test,aes::Aes192Dec::weak_key_test timeout=300
-auto_family!(a192_conv, a192_zero, a192_names, a192_weak, Aes192, Aes192Enc, Aes192Dec, 24, "Aes192", "Aes192Enc", "Aes192Dec");
+auto_family!(a192_conv, a192_convf, a192_convc, a192_zero, a192_names, a192_weak, Aes192, Aes192Enc, Aes192Dec, 24, "Aes192", "Aes192Enc", "Aes192Dec");
 // @ob name=a256_conv props=C12,C15 fn=aes::Aes256::new,aes::Aes256Enc::new,aes::Aes256Dec::new,aes::Aes256::from,aes::Aes256Dec::from,aes::Aes256::clone uses=c_ni_expand_256,ks_aes256,c_ni_inv_keys_15 timeout=1800
+// @ob name=a256_convf props=C12,C15 fn=aes::Aes256::new,aes::Aes256Enc::new,aes::Aes256Dec::new,aes::Aes256::from,aes::Aes256Dec::from,aes::Aes256::clone uses=c_ni_expand_256,ks_aes256,c_ni_inv_keys_15 timeout=1800
+// @ob name=a256_convc props=C12,C15 fn=aes::Aes256::new,aes::Aes256Enc::new,aes::Aes256Dec::new,aes::Aes256::from,aes::Aes256Dec::from,aes::Aes256::clone uses=c_ni_expand_256,ks_aes256,c_ni_inv_keys_15 timeout=1800
 // @ob name=a256_zero props=C16 cfg=zeroize fn=aes::Aes256::drop,aes::Aes256Enc::drop,aes::Aes256Dec::drop uses=c_ni_expand_256,ks_aes256 timeout=1800
 // @ob name=a256_names props=C19 fn=aes::Aes256::fmt,aes::Aes256Enc::fmt,aes::Aes256Dec::fmt uses=c_ni_expand_256,ks_aes256 timeout=900
 // @ob name=a256_weak props=C13 fn=aes::Aes256::weak_key_test,aes::Aes256Enc::weak_key_test,aes::Aes256Dec::weak_key_test timeout=300
-auto_family!(a256_conv, a256_zero, a256_names, a256_weak, Aes256, Aes256Enc, Aes256Dec, 32, "Aes256", "Aes256Enc", "Aes256Dec");
+auto_family!(a256_conv, a256_convf, a256_convc, a256_zero, a256_names, a256_weak, Aes256, Aes256Enc, Aes256Dec, 32, "Aes256", "Aes256Enc", "Aes256Dec");
